@@ -12,7 +12,7 @@ CONSTANTS
   PbPols = {1}
   PbNeg = 0
   PbPos = 1
-  PbBound = 3
+  PbBound = 2
   PbOps = {">="}
   MaxMgrs = 3
   MaxPosts = 3
